@@ -90,3 +90,10 @@ TEXT["C09"] = dict(text="Coq theorems, every non-empty byte string / variant / s
     "Correspondence: every truncation length and byte flip of every genuine reply, random bytes, own probes, pre-send traffic through the real drivers: never a panic or fatal error, outcome = model.",
     note=_DRVNOTE + " PARTIAL: freedom from panics inside gopacket / x/net/icmp is exercised (recover around every call), not proved; the zero-length read is fatal by design and unreachable behind the installed filters (DESIGN).",
     technique="Coq proof (totality of decoders + case analysis of matchers) + differential run of the real drivers on the malformed stream")
+
+TEXT["C19"] = dict(text="Coq theorems over ALL integers: an accepted request is executed with exactly the stated TTL range, port (default when 0), protocol and method, all within wire range; TTL bounds outside 1..255, ports outside 1..65535, unknown protocol or method are rejected. "
+    "Correspondence: the real RunTraceroute over the simulated wire on the boundary grid (error vs TTLs/address/port/protocol actually emitted), the HTTP handler's query parsing, target literal forms; every driver incl. SACK sending TTL 255 (C06/C09 lab) and the engines at 250..255.",
+    note="PARTIAL: target literal parsing (net.SplitHostPort, netip.ParseAddr, DNS) is correspondence-only.", technique="Coq proof (arithmetic over all integers) + differential run of the real entry points over a simulated wire on the boundary grid")
+TEXT["C20"] = dict(text="Coq theorems over ALL outcomes and ALL error trees (any wrapping depth, errors.Join): sack => SACK trace or the SACK error, SYN never attempted; prefer_sack => SYN attempted iff the SACK error tree contains NotSupported, any other failure returned with every cause, SACK success kept; syn/default => SACK never invoked; "
+    "SACK-unavailable = {dial failure, no SACK-permitted, ACK without SACK blocks}; e2e probes use SYN. Correspondence: real performTCPFallback on random error trees; real runTracerouteOnce against a loopback listener with synthesised handshakes and injected faults (probe kinds on the wire, connections opened).",
+    note="The classification of real SACK failures (sack_run) is validated by the real runs (kind 12), not proved from the SACK code.", technique="Coq proof (induction-free case analysis over outcome/error-tree predicates) + differential run of the real selector and the real TCP entry point")
